@@ -131,6 +131,9 @@ Definition c25_step_ok (prev : option N) (pk : pkind) (progs : list (list cspec)
     match outs_of (st_events st) with [] => true | _ => false end
   else
     match prev, st_snap st with
+    | None, None =>
+      (* no session (the harness notes NOSESSION): nothing can have been sent *)
+      match outs_of (st_events st) with [] => true | _ => false end
     | Some start, Some sn =>
       clean_events (st_events st) &&
       c25_phase_ok start (map (flat_map cspec_items) progs) (outs_of (st_events st)) (sn_send sn)
@@ -151,4 +154,4 @@ Fixpoint c25_steps (prev : option N) (pk : pkind) (ops : list cop) (tr : trace) 
 
 Definition c25_ok (ops : list cop) (tr : trace) : bool := c25_steps None PNone ops tr.
 
-Definition c25_ok_line (case result : bytes) : bool := c25_ok (parse_cline case) (parse_trace result).
+Definition c25_ok_line (case result : bytes) : bool := c25_ok (parse_cline case) (fparse_trace result).
